@@ -1051,7 +1051,8 @@ pub fn case_degraded(v: &Scenario) -> CaseOut {
 // Foreign sender: a plain socket that marks its datagrams with a DSCP value next to the ECN bits
 // ---------------------------------------------------------------------------------------------
 
-/// `family`: 0 IPv4 -> IPv4 socket, 1 IPv6 -> IPv6 socket, 2 IPv4 -> dual-stack IPv6 socket
+/// `family`: 0 IPv4 -> IPv4 socket, 1 IPv6 -> IPv6 socket, 2 IPv4 -> dual-stack IPv6 socket, 3 link-local IPv6
+/// (with a scope id) if the host has such an address
 #[derive(Debug, Clone, Serialize, Deserialize)]
 pub struct Foreign {
     pub id: u64,
@@ -1062,11 +1063,34 @@ pub struct Foreign {
 }
 
 pub fn arb_foreign() -> impl Strategy<Value = Foreign> {
-    (any::<u64>(), 0u8..3, prop_oneof![2 => Just(0u8), 3 => proptest::sample::select(vec![8u8, 10, 18, 26, 34, 46, 48, 56, 63]), 2 => 0u8..64], 0u8..4, proptest::collection::vec(prop_oneof![1u16..64, 64u16..1452], 1..4))
+    (any::<u64>(), 0u8..4, prop_oneof![2 => Just(0u8), 3 => proptest::sample::select(vec![8u8, 10, 18, 26, 34, 46, 48, 56, 63]), 2 => 0u8..64], 0u8..4, proptest::collection::vec(prop_oneof![1u16..64, 64u16..1452], 1..4))
         .prop_map(|(id, family, dscp, ecn, lens)| Foreign { id, family, dscp, ecn, lens })
 }
 
+/// A link-local IPv6 address of this host with its interface index (the scope id), if there is one
+fn link_local() -> Option<(Ipv6Addr, u32)> {
+    static LL: OnceLock<Option<(Ipv6Addr, u32)>> = OnceLock::new();
+    *LL.get_or_init(|| {
+        let txt = std::fs::read_to_string("/proc/net/if_inet6").ok()?;
+        for l in txt.lines() {
+            let p: Vec<&str> = l.split_whitespace().collect();
+            if p.len() >= 6 && p[0].starts_with("fe80") && p[5] != "lo" {
+                let mut b = [0u8; 16];
+                for i in 0..16 {
+                    b[i] = u8::from_str_radix(&p[0][2 * i..2 * i + 2], 16).ok()?;
+                }
+                let idx = u32::from_str_radix(p[1], 16).ok()?;
+                return Some((Ipv6Addr::from(b), idx));
+            }
+        }
+        None
+    })
+}
+
 pub fn case_foreign(f: &Foreign) -> CaseOut {
+    if f.family % 4 == 3 {
+        return case_foreign_link_local(f);
+    }
     let v4_sender = f.family != 1;
     let rx_bind: SocketAddr = match f.family % 3 {
         0 => (Ipv4Addr::LOCALHOST, 0).into(),
@@ -1134,6 +1158,51 @@ pub fn case_foreign(f: &Foreign) -> CaseOut {
         labels.push("ecn-set");
     }
     CaseOut { verdict: Verdict::Pass, labels, nontrivial: f.dscp != 0 && f.ecn & 3 != 0, summary: Some(json!({"family": f.family % 3, "dscp": f.dscp, "ecn": f.ecn & 3, "lens": f.lens})) }
+}
+
+/// Sender and receiver on a link-local address: the source address reported carries the scope id
+fn case_foreign_link_local(f: &Foreign) -> CaseOut {
+    let Some((ip, scope)) = link_local() else {
+        return CaseOut::discard("no link-local IPv6 address on this host");
+    };
+    let bind = SocketAddr::V6(std::net::SocketAddrV6::new(ip, 0, 0, scope));
+    let rx = match mk_end(bind, None) {
+        Ok(e) => e,
+        Err(e) => return CaseOut::inconclusive(format!("receiver socket on {bind}: {e}")),
+    };
+    let tx = match mk_socket(bind, None) {
+        Ok(s) => s,
+        Err(e) => return CaseOut::inconclusive(format!("sender socket on {bind}: {e}")),
+    };
+    let tos = ((f.dscp as u32) << 2) | (f.ecn as u32 & 3);
+    if let Err(e) = socket2::SockRef::from(&tx).set_tclass_v6(tos) {
+        return CaseOut::inconclusive(format!("cannot set the traffic class: {e}"));
+    }
+    let Ok(from) = tx.local_addr() else { return CaseOut::inconclusive("no local address") };
+    let dst = SocketAddr::V6(std::net::SocketAddrV6::new(ip, rx.local.port(), 0, scope));
+    for (i, len) in f.lens.iter().enumerate() {
+        let data = payload_bytes(f.id ^ i as u64, *len as usize);
+        if !matches!(tx.send_to(&data, dst), Ok(n) if n == data.len()) {
+            return CaseOut::inconclusive("send on the link-local address failed");
+        }
+        let d = match drain(&rx, &[2048], data.len(), 1, 2, Duration::from_millis(300)) {
+            Ok(d) => d,
+            Err((sig, msg)) => return CaseOut::fail(sig, msg),
+        };
+        let Some(g) = d.gots.first() else {
+            return CaseOut::inconclusive("link-local datagram did not arrive within 300 ms");
+        };
+        if g.data != data {
+            return CaseOut::fail("c19/payload", format!("link-local datagram {i}: payload differs"));
+        }
+        if g.meta.addr != from {
+            return CaseOut::fail("c19/src-addr", format!("datagram {i}: RecvMeta.addr is {:?}, sent from {from:?} (link-local: address, port, flow label and scope id must all be reported)", g.meta.addr));
+        }
+        if g.meta.ecn != EcnCodepoint::from_bits(f.ecn & 3) {
+            return CaseOut::fail("c19/ecn", format!("link-local datagram {i}: RecvMeta.ecn is {:?}, sent {:02b}", g.meta.ecn, f.ecn & 3));
+        }
+    }
+    CaseOut { verdict: Verdict::Pass, labels: vec!["v6-link-local"], nontrivial: true, summary: Some(json!({"family": "link-local", "scope": scope, "lens": f.lens})) }
 }
 
 // ---------------------------------------------------------------------------------------------
